@@ -163,12 +163,19 @@ var sizeGen = rapid.SampledFrom([]string{"tiny", "small", "small", "medium", "me
 
 // TestC09Readers: readers racing a sequence of saves only ever see complete snapshots.
 func TestC09Readers(t *testing.T) {
-	col := ev.Get("C09", "readers", "a saver goroutine (in 30% of the cases 2, 4 or 8 stores of the process saving concurrently, several times over - or goroutines sharing one store, each loading right after its save: it must not get a snapshot whose save had returned before its own began) saves a generated sequence of 3-12 snapshots (size classes from 1 job to ~1500 jobs / several MB) with the real JsonDataStore (store file reached directly, through a data.json that is a symbolic link to a file elsewhere, or through a symlinked store directory; in a third of the cases TMPDIR points to another file system) while 2-6 reader goroutines alternate raw os.ReadFile+encoding/json and JsonDataStore.Load; every observation must be 'absent' (only before the first save returned) or decode completely to exactly one snapshot passed to Save (index + content hash), with index >= last save that had returned before the observation began and <= last save started; after the sequence Load returns exactly the last snapshot; in half of the cases a snapshot without jobs is saved last, by the same store or by a new one on the same directory, and must replace what was there; non-trivial = an observation that overlapped a save in progress; distinct by (seed,size,observation count)")
+	col := ev.Get("C09", "readers", "a saver goroutine (in 30% of the cases 2, 4 or 8 stores of the process saving concurrently, several times over - or goroutines sharing one store, each loading right after its save: it must not get a snapshot whose save had returned before its own began) saves a generated sequence of 3-12 snapshots (size classes from 1 job to ~1500 jobs / several MB, in a fifteenth of the cases some 4000 jobs / more than 20 MB) with the real JsonDataStore (store file reached directly, through a data.json that is a symbolic link to a file elsewhere, or through a symlinked store directory; in a third of the cases TMPDIR points to another file system) while 2-6 reader goroutines alternate raw os.ReadFile+encoding/json and JsonDataStore.Load; every observation must be 'absent' (only before the first save returned) or decode completely to exactly one snapshot passed to Save (index + content hash), with index >= last save that had returned before the observation began and <= last save started; after the sequence Load returns exactly the last snapshot; in half of the cases a snapshot without jobs is saved last, by the same store or by a new one on the same directory, and must replace what was there; non-trivial = an observation that overlapped a save in progress; distinct by (seed,size,observation count)")
 	rapid.Check(t, func(rt *rapid.T) {
 		seed := rapid.Int64Range(1, 1<<40).Draw(rt, "seed")
 		size := sizeGen.Draw(rt, "size")
 		count := rapid.IntRange(3, 12).Draw(rt, "count")
 		nReaders := rapid.IntRange(2, 6).Draw(rt, "readers")
+		if rapid.IntRange(0, 14).Draw(rt, "giantSnapshots") == 0 {
+			// a history of thousands of jobs: an encoding of some 20 MB and more, saved and loaded like any other
+			size, count = "giant", 3
+			if nReaders > 3 {
+				nReaders = 3
+			}
+		}
 		twoSavers := rapid.IntRange(0, 9).Draw(rt, "twoSavers") >= 7
 		top := workDir(rt)
 		defer os.RemoveAll(top)
